@@ -538,6 +538,10 @@ func (e *Engine) parseJoin(j []Token, mainTable string) (*joinSpec, string) {
 // applyJoin gives the rows of `main LEFT JOIN spec`: per main row its matching revision rows (their
 // metadata / revision / date override the main row's columns of the same name), or the row itself
 // with NULLs when nothing matches.
+// mainMetadata is the key under which a joined row keeps the main table's own metadata column (the key
+// "metadata" then holds the joined revision's, which is what unqualified references after the join see).
+const mainMetadata = "\x00main.metadata"
+
 func (e *Engine) applyJoin(main []Row, js *joinSpec) []Row {
 	t2 := e.Tables[js.table]
 	var out []Row
@@ -574,6 +578,7 @@ func (e *Engine) applyJoin(main []Row, js *joinSpec) []Row {
 			for k, v := range r {
 				nr[k] = v
 			}
+			nr[mainMetadata] = r["metadata"]
 			nr["metadata"], nr["revision"], nr["date"] = nil, nil, nil
 			out = append(out, nr)
 			continue
@@ -583,6 +588,7 @@ func (e *Engine) applyJoin(main []Row, js *joinSpec) []Row {
 			for k, v := range r {
 				nr[k] = v
 			}
+			nr[mainMetadata] = r["metadata"]
 			for _, k := range []string{"metadata", "revision", "date"} {
 				nr[k] = m[k]
 			}
@@ -757,13 +763,35 @@ func (e *Engine) selectRows(toks []Token, sql string, record bool) ([]string, []
 		sort.Strings(filters)
 		e.Conjuncts = append(e.Conjuncts, filters)
 	}
+	// "<main>.*" next to the joined revision's metadata: PostgreSQL answers two columns called metadata, the
+	// main table's current one first (the client library scans both into the same field, in that order)
+	twoMetadata := false
+	if join != nil {
+		if _, joined := e.Tables[join.table]; joined {
+			for i := 1; i+1 < from; i++ {
+				if toks[i].Kind == TOp && toks[i].Text == "." && toks[i+1].Kind == TOp && toks[i+1].Text == "*" {
+					twoMetadata = true
+				}
+			}
+		}
+	}
+	cols := table.Columns
+	if twoMetadata {
+		cols = append(append([]string{}, table.Columns...), "metadata")
+	}
 	rows := make([][]driver.Value, len(out))
 	for i, r := range out {
-		vals := make([]driver.Value, len(table.Columns))
+		vals := make([]driver.Value, len(cols))
 		for j, c := range table.Columns {
 			vals[j] = r[c]
+			if twoMetadata && c == "metadata" {
+				vals[j] = r[mainMetadata]
+			}
+		}
+		if twoMetadata {
+			vals[len(cols)-1] = r["metadata"]
 		}
 		rows[i] = vals
 	}
-	return table.Columns, rows, nil
+	return cols, rows, nil
 }
